@@ -429,13 +429,16 @@ func main() {
 	}
 	mustQ("", "CREATE DATABASE c20bb")
 	r := gen.FromEnv(2020)
-	nmst := 2
+	nmst := 3
 	for m := 0; m < nmst; m++ {
 		mst := "m" + strconv.Itoa(m)
 		// key: 1..3 typed fields
 		nk := 1 + r.Intn(3)
 		if m == 0 {
 			nk = 2 + r.Intn(2) // at least one measurement with a composite key (exclusion search)
+		}
+		if m == 2 {
+			nk = 1 + r.Intn(2)
 		}
 		tys := []string{"string", "int", "float", "bool"}
 		var types, knames, cnames []string
@@ -456,6 +459,11 @@ func main() {
 		small := make([]int, nk)
 		for c := range small {
 			small[c] = 2 + r.Intn(9)
+			if m == 2 {
+				// few distinct keys: a key group of the attached flush then holds more than 8192 rows, i.e. one primary-index
+				// fragment spans several segments
+				small[c] = 1 + r.Intn(2)
+			}
 		}
 		rows := make([]*row, nrows)
 		for i := range rows {
